@@ -513,7 +513,9 @@ func (w *worker[T, JobType]) stopAndRemoveAllWorkers() {
 }
 
 func (w *worker[T, JobType]) start() error {
-	if w.IsRunning() {
+	// only a worker that has not been started yet (or has been reset by Restart) can be started;
+	// binding another queue to a paused or stopped worker must not change its state
+	if w.status.Load() != initiated {
 		return ErrRunningWorker
 	}
 
